@@ -287,6 +287,24 @@ def validate_mirror(g, c):
     return n
 
 
+def stale_looking(proj):
+    """Does the real by-key index / a real cache hold something that the abstract state does not back (a removed peer,
+    an abandoned address, a foreign object of a verified peer, a verified peer missing from a cached service list)?
+    Such entries may be harmless (validated when read) - the audit asks every lookup to find out."""
+    ver = proj["verified"]
+    if proj["byKey"] != ver:
+        return True
+    for a, p in proj["ipCache"]:
+        if p not in ver or a not in _addrset(proj, p):
+            return True
+    for s_, ents in proj["svcCache"]:
+        if any(m != 0 and p in ver for p, m in ents):
+            return True
+        if any(s_ in proj["services"][p - 1] and (p, 0) not in ents for p in ver):
+            return True
+    return False
+
+
 def abs_cand(st, a):
     """AbsCand(a) of Network.tla evaluated on a TLC state."""
     return {p for p in st["verified"] if a in (st["addrOf"][p - 1]["v4"], st["addrOf"][p - 1]["v6"])}
@@ -367,9 +385,10 @@ class Replayer:
 
     def audit_if_drift(self, net, st, labels):
         """st: the TLC state the real Network is in.  When the real by-key index / caches are not what the
-        specification's implementation layer predicts, every lookup is asked (on this Network, which is discarded
+        specification's implementation layer predicts, or hold entries the abstract state does not back, every lookup is asked (on this Network, which is discarded
         afterwards) and compared with the abstract answers of st; the abstract state must not move."""
-        if norm_lenient(self.w.project(net)) == norm_lenient(st):
+        proj = self.w.project(net)
+        if norm_lenient(proj) == norm_lenient(st) and not stale_looking(proj):
             return True
         self.audits += 1
         expected = abs_answers(st, self.w.c)
@@ -773,6 +792,17 @@ def job_spec_control(tmp, i):
     return (not r.ok) and (r.violated == inv or (inv in PROPS and r.violated is not None))
 
 
+def job_intro_note(tmp):
+    """Informative only: can get_introductions_from return addresses that are no longer known / re-parented?
+    (reverse_intro_lookup is not invalidated either; the statement of C12 does not list this lookup.)"""
+    c = consts(2, 2, 1, caps=(1, 1, 1), depth=4)
+    cfg = make_cfg(os.path.join(tmp, "intro.cfg"), c, view="NoRetOp", invariants=["IntroAgrees"], props=[])
+    r = run_tlc("Network.tla", cfg, coverage=False, workers=2)
+    return {"IntroAgrees_violated_in_the_specification_of_the_repaired_code": r.violated == "IntroAgrees",
+            "counterexample": [lbl.split(" line")[0] for lbl, _st in r.error_trace][1:],
+            "treated_as": "outside the statement of C12: reported, not a violation"}
+
+
 def forgetful_network():
     """A hand-made wrong Network (remove_peer forgets the by-key index) for the binding control."""
     from ipv8.peerdiscovery.network import Network
@@ -787,8 +817,43 @@ def forgetful_network():
     return ForgetfulNetwork
 
 
+def run_replay(path):
+    """./check C12 --replay replays/C12-xxxx.json : re-executes a stored failing history (binding R) on the real Network
+    of the current tree and compares with what the specification demanded when the file was written."""
+    import ast
+    from ..common import jsonable
+    with open(path, encoding="utf-8") as f:
+        doc = json.load(f)
+    obj = doc["replay"]
+    if obj.get("binding") != "R":
+        print("replay files of recorded traces are not re-executable on their own: re-run ./check C12 (seed %s)" % doc["seed"])
+        return 2
+    c = dict(obj["constants"])
+    for k in ("V6", "BlackAddr", "BlackMid", "Defects"):
+        c[k] = frozenset(c[k])
+    w = World(c, doc["seed"])
+    net = w.network()
+    ret = frozenset()
+    for label in obj["actions"]:
+        name, _, inner = label.partition("(")
+        args = tuple(frozenset(x) if isinstance(x, list) else x for x in ast.literal_eval("(" + inner[:-1] + ",)"))
+        ret = w.apply(net, name, args)
+        print("  %-40s -> %s" % (label, sorted(ret)))
+    proj = w.project(net, lenient=False)
+    still = False
+    for k, v in obj["diff"].items():
+        now = jsonable(ret if k == "ret" else proj[k])
+        ok = now == v["spec"] or (k == "ret" and name == "GetByAddress" and now and set(now) <= set(v["spec"]))
+        print("%s: now %s, specification demanded %s, was %s" % (k, now, v["spec"], v["impl"]))
+        still = still or not ok
+    print("VIOLATION property=C12 replay=%s (still diverges)" % path if still else "C12 replay: conforms now")
+    return 1 if still else 0
+
+
 def run(tier, seed, replay=None):
     setup_repo_path()
+    if replay:
+        return run_replay(replay)
     ctx = Ctx(PID, tier, seed, "model_checking")
     ctx.cov["rule"] = ("TLC enumerates every sequence of Network calls (add_verified_peer, discover_address, "
                        "discover_services, remove_peer, remove_by_address, load_snapshot and the six lookups) over small "
@@ -834,6 +899,7 @@ def run(tier, seed, replay=None):
     ex = ThreadPoolExecutor(max_workers=12)
     try:
         f_ctl = [ex.submit(job_spec_control, tmp, i) for i in range(len(SPEC_CONTROLS))]
+        f_intro = ex.submit(job_intro_note, tmp)
         f_ctl_dump = ex.submit(job_dump, tmp, ctl_c, "control")
         f_dump = {tag: ex.submit(job_dump, tmp, c, tag) for tag, c, _cd in universes}
         f_trace = ex.submit(job_trace, tmp, traces, "traces")
@@ -861,6 +927,7 @@ def run(tier, seed, replay=None):
         for tag, _c, _cd in universes:
             ctx.add_tlc(tag, f_check[tag].result())
         ctx.add_tlc("big_3x3x2", f_big.result())
+        ctx.note("get_introductions_from", f_intro.result())
         ctx.cov["exhaustive"] = True
     finally:
         ex.shutdown(wait=True, cancel_futures=True)
